@@ -35,21 +35,21 @@ def judge(t):
     R = t.R
     opts = scn.get('options', {})
 
+    # known finding D18: the file fetched as m holds m (fine) and another module whose symbol-table stage
+    # fails; the failure is booked under the lookup name m although m itself is compiled.
+    cores = set()
+    for c in t.by('symtab.genCode'):
+        if not c.ok and c.ctx is not None and c.mib != c.ctx:
+            if any(d.ok and d.mib == c.ctx and d.ctx == c.ctx for d in t.by('symtab.genCode')):
+                cores.add(c.ctx)
+
     def V(clause, msg, **facts):
         key = '%s|%s' % (clause, facts.get('what', ''))
-        if facts.get('coresident_failure'):
+        if facts.get('module') in cores:
+            facts['coresident_failure'] = True
             key += '|coresident'
+        facts.pop('module', None)
         viol.append({'clause': clause, 'key': key, 'facts': facts, 'message': msg})
-
-    def coresident(m):
-        """True if m's failed status stems from another module of the file fetched as m,
-        while m itself made it through the symbol-table stage (known finding D18)."""
-        e = getattr(R.get(m), 'error', None)
-        if e is None:
-            return False
-        own_ok = any(c.ok and c.mib == m and c.ctx == m for c in t.by('symtab.genCode'))
-        other = any(c.exc is e and c.ctx == m and c.mib != m for c in t.calls if c.site in ('symtab.genCode',))
-        return own_ok and other
 
     # 1. returns without raising
     if t.escaped is not None:
@@ -86,7 +86,7 @@ def judge(t):
         seen[c.mib] = seen.get(c.mib, 0) + 1
     for m, n in sorted(seen.items()):
         if n > 1:
-            V('C07.3-once', '%s handed to the writer %d times' % (m, n), what='twice')
+            V('C07.3-once', '%s handed to the writer %d times' % (m, n), what='twice', module=m)
     writing = opts.get('writeMibs', True)
     if not writing and puts:
         V('C07.4-status-effect', 'writer called although writing is disabled', what='write-disabled')
@@ -95,12 +95,11 @@ def judge(t):
         for m, v in R.items():
             s = str(v)
             if s in ('compiled', 'borrowed') and m not in okput:
-                V('C07.4-status-effect', '%s reported %s but no successful hand-over to the writer happened' % (m, s), what='status-without-write', status=s)
+                V('C07.4-status-effect', '%s reported %s but no successful hand-over to the writer happened' % (m, s), what='status-without-write', status=s, module=m)
         for m in sorted(okput):
             s = str(R.get(m))
             if s not in ('compiled', 'borrowed'):
-                V('C07.4-status-effect', '%s was handed to the writer successfully but is reported %s' % (m, s), what='write-without-status', status=s,
-                  coresident_failure=coresident(m))
+                V('C07.4-status-effect', '%s was handed to the writer successfully but is reported %s' % (m, s), what='write-without-status', status=s, module=m)
     # 5. the text is what the generator / borrower produced
     gen_ok = {}
     for c in t.by('codegen.genCode'):
@@ -115,7 +114,7 @@ def judge(t):
         if want is None:
             V('C07.5-text', '%s handed to the writer but neither generator nor borrower produced it' % c.mib, what='text-from-nowhere')
         elif c.kw.get('data') != want:
-            V('C07.5-text', 'text handed to the writer for %s differs from what the %s produced' % (c.mib, 'generator' if c.mib in gen_ok else 'borrower'), what='text-differs')
+            V('C07.5-text', 'text handed to the writer for %s differs from what the %s produced' % (c.mib, 'generator' if c.mib in gen_ok else 'borrower'), what='text-differs', module=c.mib)
     # 6. failed entries carry the causing error; missing means nobody had it
     raised = [c for c in t.calls if c.exc is not None]
     for m, v in R.items():
@@ -139,10 +138,9 @@ def judge(t):
     for m in gen_ok:
         s = str(R.get(m))
         if s not in ('compiled', 'unprocessed', 'failed'):
-            V('C07.7-not-dropped', 'code was generated for %s but its status is %s' % (m, s), what='generated-status', status=s)
+            V('C07.7-not-dropped', 'code was generated for %s but its status is %s' % (m, s), what='generated-status', status=s, module=m)
         elif s == 'failed' and not isinstance(getattr(R[m], 'error', None), error.PySmiWriterError):
-            V('C07.7-not-dropped', 'code was generated for %s, yet it is reported failed with a non-writer error' % m, what='generated-failed',
-              coresident_failure=coresident(m))
+            V('C07.7-not-dropped', 'code was generated for %s, yet it is reported failed with a non-writer error' % m, what='generated-failed', module=m)
     return viol
 
 
